@@ -21,6 +21,7 @@
 From Verif Require Import Prelude Model.Response.
 From Verif Require Import Proofs.Response Proofs.ResponseAgg Proofs.ResponseCsv.
 From Verif Require Import Proofs.ResponseExact Proofs.ResponseDisj Proofs.ResponseDisj2.
+From Verif Require Import Gen.ResponseGen Proofs.ResponseGen.
 From Coq Require Import QArith Qabs Qround Permutation.
 Open Scope Z_scope.
 
@@ -355,6 +356,75 @@ Theorem C19_csv_defined : forall o resp eqp margin pdbm,
   exists row, csv_row eqp margin pdbm resp = Ok row.
 Proof. exact csv_defined. Qed.
 Print Assumptions C19_csv_defined.
+
+(* ---------------------------------------------------------------- translator tie: the source says what the model says *)
+(* Gen/ResponseGen.v is regenerated from /repo's source on every run (harness/pygen_c19.py); each g_ definition is the
+   translation of the named source fragment *)
+Theorem C19_source_pathresult : forall o, g_pathresult o = pathresult o.
+Proof. exact gen_pathresult. Qed.
+Print Assumptions C19_source_pathresult.
+Theorem C19_source_path_properties : forall o, g_path_properties o = path_properties o.
+Proof. exact gen_path_properties. Qed.
+Print Assumptions C19_source_path_properties.
+Theorem C19_source_metrics : forall r o, g_expected_metrics r o = expected_metrics r o.
+Proof. exact gen_expected_metrics. Qed.
+Print Assumptions C19_source_metrics.
+Theorem C19_source_penalty : forall p, g_penalty_val p = penalty_val p.
+Proof. exact gen_penalty_val. Qed.
+Print Assumptions C19_source_penalty.
+Theorem C19_source_route_objects : forall o, g_detailed_path_json o = detailed_path_json o.
+Proof. exact gen_detailed_path_json. Qed.
+Print Assumptions C19_source_route_objects.
+Theorem C19_source_blocking_classes :
+  g_BLOCKING_NOPATH = BLOCKING_NOPATH /\ g_BLOCKING_NOMODE = BLOCKING_NOMODE /\ g_BLOCKING_NOSPECTRUM = BLOCKING_NOSPECTRUM.
+Proof. exact gen_blocking. Qed.
+Print Assumptions C19_source_blocking_classes.
+(* jsontocsv: which blocked responses carry path properties; the pass flag (margin-inclusive: >=); the positions *)
+Theorem C19_source_csv_reports_path : forall reason, g_csv_reports_path reason = negb (mem_s reason BLOCKING_NOPATH).
+Proof. exact gen_csv_reports_path. Qed.
+Print Assumptions C19_source_csv_reports_path.
+Theorem C19_source_csv_pass : forall smin snr minosnr,
+  g_csv_pass smin snr minosnr = match smin with CEmpty => cell_ge snr minosnr | _ => cell_ge smin minosnr end.
+Proof. exact gen_csv_pass. Qed.
+Print Assumptions C19_source_csv_pass.
+Theorem C19_source_csv_positions : g_csv_positions = ((1, 2), (2, 3))%nat.
+Proof. exact gen_csv_positions. Qed.
+Print Assumptions C19_source_csv_positions.
+Theorem C19_source_csv_columns : forall l pdbm cells,
+  jsontopath_metric (Some (JArr l)) pdbm = Ok cells ->
+  Forall2 (fun c nf => fmt_cell (snd nf) pdbm (read_property l (fst nf)) = Ok c) cells g_jsontopath_cols.
+Proof. exact jsontopath_metric_cols. Qed.
+Print Assumptions C19_source_csv_columns.
+Theorem C19_source_csv_values :
+  g_jsontoparams_values = JSONTOPARAMS_VALUES /\ g_csv_separators = (" | ", " | ")%string /\
+  length g_jsontoparams_values = length PATH_FIELDS.
+Proof. exact gen_jsontoparams_values. Qed.
+Print Assumptions C19_source_csv_values.
+(* aggregation: the compared fields (bidir among them), the absorb condition, what the absorbing request becomes *)
+Theorem C19_source_compare_fields :
+  g_compare_fields = KEY_FIELD_NAMES /\ nth_error g_compare_fields 2 = Some "bidir"%string.
+Proof. exact gen_compare_fields. Qed.
+Print Assumptions C19_source_compare_fields.
+Theorem C19_source_can_absorb : forall req disj this_r, g_can_absorb req disj this_r = can_absorb req disj this_r.
+Proof. exact gen_can_absorb. Qed.
+Print Assumptions C19_source_can_absorb.
+Theorem C19_source_merge : forall this_r req, g_merge this_r req = merge this_r req.
+Proof. exact gen_merge. Qed.
+Print Assumptions C19_source_merge.
+(* planning: ids checked, route lists harmonised and groups de-duplicated before aggregation; routing, propagation and
+   spectrum assignment after it *)
+Theorem C19_source_planning_steps : g_planning_steps = PLANNING_STEPS.
+Proof. exact gen_planning_steps. Qed.
+Print Assumptions C19_source_planning_steps.
+Theorem C19_source_planning_order :
+  before "check_request_path_ids" "requests_aggregation" g_planning_steps = true /\
+  before "correct_json_route_list" "requests_aggregation" g_planning_steps = true /\
+  before "deduplicate_disjunctions" "requests_aggregation" g_planning_steps = true /\
+  before "requests_aggregation" "compute_path_dsjctn" g_planning_steps = true /\
+  before "compute_path_dsjctn" "compute_path_with_disjunction" g_planning_steps = true /\
+  before "compute_path_with_disjunction" "pth_assign_spectrum" g_planning_steps = true.
+Proof. exact planning_order. Qed.
+Print Assumptions C19_source_planning_order.
 
 (* ---------------------------------------------------------------- non-vacuity *)
 Definition ex_rx (d : Q) : rxfig :=
